@@ -116,6 +116,10 @@ def run_case(spec, idx, ctx):
         build["orthogonalize"] = False
     if kind == "dataset_opt":
         build["learn_descan"] = True
+    if idx % 5 == 2:
+        # history: the dataset was preprocessed before with another descan fit, and Ptychography.preprocess is called twice
+        build["dset_pre"] = [["constant"], ["plane"], ["constant", "no_shift"]][(idx // 5) % 3]
+        build["pt_twice"] = bool((idx // 5) % 2)
     if idx % 3 == 1 and kind != "ties":
         build["detector_units"] = "mrad"  # same calibration given as scattering angles (converted with the probe energy by the library)
     sc = scenes.make_scene(rng, **kw)
@@ -245,4 +249,4 @@ def run_case(spec, idx, ctx):
     nfrac = int((frac.max(axis=1) > 1e-3).sum())
     par = "".join("o" if n % 2 else "e" for n in sc.roi) + ("sq" if sc.roi[0] == sc.roi[1] else "ns")
     ctx.nontrivial((kind, sc.obj_type, sc.num_slices, sc.num_probes, par, "b1" if 1 in bsizes else "bp", clip), sc.meta["phase_std"] >= 0.1 and (nfrac >= 2 or kind.startswith("constant")) and minpert >= 1e-4)
-    ctx.observe(scene=sc.describe(), roll=list(roll), clip=clip, detector_units=build.get("detector_units", "A^-1"), worst_truth_over_perturbed=worst_ratio, min_perturbed_loss=float(minpert), fractional_positions=nfrac)
+    ctx.observe(scene=sc.describe(), roll=list(roll), clip=clip, detector_units=build.get("detector_units", "A^-1"), dset_pre=list(build.get("dset_pre", ())), pt_twice=bool(build.get("pt_twice")), worst_truth_over_perturbed=worst_ratio, min_perturbed_loss=float(minpert), fractional_positions=nfrac)
